@@ -70,6 +70,8 @@ try:
     t0 = time.time()
     rc, out = sh("VERIF_REPO=%s ./check %s --tier quick" % (W, pid), cwd="/verif", timeout=1200)
     res["check_quick"] = {0: "MISSED", 1: "CAUGHT", 2: "INCONCLUSIVE"}.get(rc, "rc=%d" % rc)
+    if rc == 1 and ("VIOLATION property=%s " % pid) not in out:
+        res["check_quick"] = "DRIVER-ERROR"
     res["check_wall_s"] = round(time.time() - t0, 1)
     clauses = sorted(set(l.split("clause=")[1].split()[0].rstrip(":") for l in out.splitlines() if "VIOLATION clause=" in l))
     res["clauses"] = clauses[:6]
